@@ -43,6 +43,8 @@ type c11Scenario struct {
 	ObOn    bool    `json:"observe_on"`
 	SubOn   bool    `json:"subscribe_on"`
 	NoNext  bool    `json:"one_subscription_without_onnext"`
+	Reconf  string  `json:"reconfigure_while_subscribed,omitempty"` // "", "subscribeOn-nil", "subscribeOn-h3", "observeOn-nil"
+	ReconfD int     `json:"reconfigure_delay_yields,omitempty"`
 	LawSeed int     `json:"law_seed"`
 
 	probes map[string]int
@@ -51,6 +53,9 @@ type c11Scenario struct {
 	h      *Hist
 	nextID int
 	h1, h2 int
+	h3     int
+	reconf *Op
+	subOps []*Op
 	onNext []c11Next
 	evalOp []*Op
 	subTID []int
@@ -100,6 +105,12 @@ func genC11(t *simrt.Tape, tier string) Scenario {
 	sc.SubOn = t.Bool(1, 2)
 	sc.NoNext = t.Bool(1, 4)
 	sc.LawSeed = t.Choose(1000)
+	if sc.Subs >= 1 && t.Bool(1, 3) {
+		// the same MonadIO object is re-configured while subscriptions are in flight (what
+		// Cor.YieldFromIO does with SubscribeOn(nil)): a subscription keeps the handlers it was made with
+		sc.Reconf = []string{"subscribeOn-nil", "subscribeOn-h3", "observeOn-nil"}[t.Choose(3)]
+		sc.ReconfD = t.Choose(8)
+	}
 	return sc
 }
 
@@ -212,13 +223,38 @@ func (sc *c11Scenario) Run(s *simrt.Sim) {
 		i := i
 		name := fmt.Sprintf("sub%d", i)
 		sc.subTID = append(sc.subTID, -1)
+		sc.subOps = append(sc.subOps, nil)
 		ths = append(ths, s.Go(name, func() {
 			sc.subTID[i] = s.Self().ID
-			h.Do(name, "Subscribe", i, func() (interface{}, error) {
+			sc.subOps[i] = h.Do(name, "Subscribe", i, func() (interface{}, error) {
 				m.Subscribe(fpgo.Subscription[int]{OnNext: func(v int) {
 					sc.onNext = append(sc.onNext, c11Next{val: v, thread: s.Self().ID, sub: i})
 					delivered++
 				}})
+				return nil, nil
+			})
+		}))
+	}
+	sc.h3 = -1
+	if sc.Reconf != "" {
+		var h3 *fpgo.HandlerDef
+		if sc.Reconf == "subscribeOn-h3" {
+			h3 = fpgo.Handler.New()
+			sc.h3 = sc.handlerTID(s, h3)
+		}
+		ths = append(ths, s.Go("reconf", func() {
+			for i := 0; i < sc.ReconfD; i++ {
+				s.YieldHard()
+			}
+			sc.reconf = h.Do("reconf", sc.Reconf, nil, func() (interface{}, error) {
+				switch sc.Reconf {
+				case "subscribeOn-nil":
+					m.SubscribeOn(nil)
+				case "subscribeOn-h3":
+					m.SubscribeOn(h3)
+				case "observeOn-nil":
+					m.ObserveOn(nil)
+				}
 				return nil, nil
 			})
 		}))
@@ -328,29 +364,66 @@ func (sc *c11Scenario) Check(res *simrt.Result) []Violation {
 	}
 	ref := c11Ref(sc.Tree, 0, nil)
 	want := c11RefVal(sc.Tree, 0)
+	// which handlers was subscription i made with? (-2 = cannot tell: Subscribe overlapped the re-configuration)
+	obOf := func(i int) int {
+		ob := -1
+		if sc.ObOn {
+			ob = sc.h1
+		}
+		if sc.Reconf == "observeOn-nil" && sc.reconf != nil && sc.subOps[i] != nil {
+			switch {
+			case sc.subOps[i].Ret < sc.reconf.Inv:
+			case sc.subOps[i].Inv > sc.reconf.Ret:
+				ob = -1
+			default:
+				return -2
+			}
+		}
+		return ob
+	}
+	subOf := func(i int) int {
+		sb := -1
+		if sc.SubOn {
+			sb = sc.h2
+		}
+		if (sc.Reconf == "subscribeOn-nil" || sc.Reconf == "subscribeOn-h3") && sc.reconf != nil && sc.subOps[i] != nil {
+			switch {
+			case sc.subOps[i].Ret < sc.reconf.Inv:
+			case sc.subOps[i].Inv > sc.reconf.Ret:
+				sb = sc.h3
+			default:
+				return -2
+			}
+		}
+		return sb
+	}
 	// effects of the Subscribe phase, grouped by thread
 	threads := map[int]bool{}
 	for _, e := range sc.log {
 		threads[e.thread] = true
 	}
-	if sc.ObOn {
-		for tid := range threads {
-			if tid != sc.h1 {
-				add("routing", "effect-not-on-observe-handler", fmt.Sprintf("an effect ran on thread T%d, ObserveOn handler is T%d", tid, sc.h1))
-			}
-		}
-		if !c11LogIsRepeats(sc.log, ref, sc.Subs, func(c11Ev) bool { return true }) {
-			add("once-per-evaluation", "Subscribe-effect-log", fmt.Sprintf("%d Subscribes ran %v on the handler; one evaluation is %v", sc.Subs, c11Names(sc.log), ref))
-		}
-	} else {
-		for i, tid := range sc.subTID {
+	onHandler, unknown := 0, 0
+	for i := range sc.subTID {
+		switch obOf(i) {
+		case -2:
+			unknown++
+		case -1:
+			tid := sc.subTID[i]
 			if !c11LogIsRepeats(sc.log, ref, 1, func(e c11Ev) bool { return e.thread == tid }) {
-				add("once-per-evaluation", "Subscribe-effect-log", fmt.Sprintf("subscriber %d (T%d): effects %v; one evaluation is %v", i, tid, c11Names(sc.log), ref))
+				add("once-per-evaluation", "Subscribe-effect-log", fmt.Sprintf("subscriber %d (T%d, no ObserveOn handler): effects %v; one evaluation is %v", i, tid, c11Names(sc.log), ref))
 			}
 			delete(threads, tid)
+		default:
+			onHandler++
 		}
+	}
+	if unknown == 0 {
+		if !c11LogIsRepeats(sc.log, ref, onHandler, func(e c11Ev) bool { return e.thread == sc.h1 }) {
+			add("once-per-evaluation", "Subscribe-effect-log", fmt.Sprintf("%d Subscribes observed on the handler T%d ran %v there; one evaluation is %v", onHandler, sc.h1, c11Names(sc.log), ref))
+		}
+		delete(threads, sc.h1)
 		for tid := range threads {
-			add("routing", "effect-on-foreign-thread", fmt.Sprintf("an effect ran on T%d which is no subscriber's thread", tid))
+			add("routing", "effect-on-wrong-thread", fmt.Sprintf("an effect ran on T%d, which is neither the ObserveOn handler (T%d) of a subscription made with it nor the thread of a subscriber made without one", tid, sc.h1))
 		}
 	}
 	perSub := map[int]int{}
@@ -359,15 +432,19 @@ func (sc *c11Scenario) Check(res *simrt.Result) []Violation {
 		if n.val != want {
 			add("value", "OnNext-wrong-value", fmt.Sprintf("OnNext got %d, the composition's value is %d", n.val, want))
 		}
-		wantT := sc.subTID[n.sub]
-		if sc.ObOn {
-			wantT = sc.h1
+		ob, sb := obOf(n.sub), subOf(n.sub)
+		if ob == -2 || sb == -2 {
+			continue
 		}
-		if sc.SubOn {
-			wantT = sc.h2
+		wantT := sc.subTID[n.sub]
+		if ob >= 0 {
+			wantT = ob
+		}
+		if sb >= 0 {
+			wantT = sb
 		}
 		if n.thread != wantT {
-			add("routing", "OnNext-on-wrong-thread", fmt.Sprintf("OnNext of subscriber %d ran on T%d, expected T%d", n.sub, n.thread, wantT))
+			add("routing", "OnNext-on-wrong-thread", fmt.Sprintf("OnNext of subscriber %d ran on T%d, expected T%d (handlers the subscription was made with: observeOn=T%d subscribeOn=T%d; -1 = none)", n.sub, n.thread, wantT, ob, sb))
 		}
 	}
 	for i := 0; i < sc.Subs; i++ {
